@@ -140,15 +140,24 @@ func c15HTMLCellText(raw string) string {
 
 func c15HTMLTable(el *c15El, b *strings.Builder, variant int) {
 	b.WriteString("<table>\n")
+	// variant 0 puts a header row into <thead>; a cell may not span rows beyond its row
+	// group (HTML table model), so a merge that starts in the header row and reaches
+	// into the body keeps all rows in one <tbody> (header cells are then marked by <th>)
+	thead := variant == 0 && el.Hdr
+	for c := 0; c < el.Nc; c++ {
+		if el.Src[0][c].Rs > 1 {
+			thead = false
+		}
+	}
 	for r := 0; r < el.Nr; r++ {
 		tag := "td"
 		if el.Hdr && r == 0 {
 			tag = "th"
-			if variant == 0 {
+			if thead {
 				b.WriteString("<thead>")
 			}
 		}
-		if r == 1 && el.Hdr && variant == 0 || r == 0 && !(el.Hdr && variant == 0) {
+		if r == 1 && thead || r == 0 && !thead {
 			b.WriteString("<tbody>")
 		}
 		b.WriteString("<tr>")
@@ -167,12 +176,16 @@ func c15HTMLTable(el *c15El, b *strings.Builder, variant int) {
 			b.WriteString("<" + tag + attr + ">" + c15HTMLCellText(s.Raw) + "</" + tag + ">")
 		}
 		b.WriteString("</tr>")
-		if el.Hdr && r == 0 && variant == 0 {
+		if r == 0 && thead {
 			b.WriteString("</thead>")
 		}
 		b.WriteString("\n")
 	}
-	b.WriteString("</tbody></table>\n")
+	if thead && el.Nr == 1 {
+		b.WriteString("</table>\n")
+	} else {
+		b.WriteString("</tbody></table>\n")
+	}
 }
 
 // c15HTML renders the document as HTML5; skipped lists the elements HTML cannot
